@@ -1,7 +1,8 @@
 /-
-  VProofs.RedactCongr — a redaction depends only on the members its keep struct's fields select:
-  editing, adding or removing members with other keys (e.g. `unsigned`) does not change it.
-  Core Lean only.
+  VProofs.RedactCongr — a redaction depends only on the members its keep struct's fields select
+  (`redactObj`), i.e. — after the restriction to exact field names — only on the last member under each
+  field's exact name (`redactWith`): editing, adding or removing members with other keys (e.g.
+  `unsigned`, or a case variant of a field name) does not change it.  Core Lean only.
 -/
 import VProofs.RedactExact
 import VModel.EventParse
@@ -46,25 +47,6 @@ theorem redactObj_congr (a : Algo) (kvs kvs' : Obj) (hsel : ∀ f ∈ a.fields, 
 
 /-! ## edits of members no field selects -/
 
-theorem sel_setFirst_other (n k : Bytes) (v : JVal) (kvs : Obj) (h : matchesField k n = false) :
-    sel n (EventParse.setFirst k v kvs) = sel n kvs := by
-  induction kvs with
-  | nil => simp [EventParse.setFirst, sel, h]
-  | cons kv rest ih =>
-    unfold EventParse.setFirst
-    by_cases hk : kv.1 = k
-    · have : (kv.1 == k) = true := by simp [hk]
-      rw [if_pos this]
-      simp only [sel, List.filter_cons, h]
-      rw [hk, h]
-      simp
-    · have : (kv.1 == k) = false := by simp [hk]
-      rw [if_neg (by simp [this])]
-      simp only [sel, List.filter_cons]
-      have ih' : List.filter (fun kv => matchesField kv.1 n) (EventParse.setFirst k v rest) =
-          List.filter (fun kv => matchesField kv.1 n) rest := ih
-      rw [ih']
-
 theorem sel_deleteFirst_other (n k : Bytes) (kvs : Obj) (h : matchesField k n = false) :
     sel n (EventParse.deleteFirst k kvs) = sel n kvs := by
   induction kvs with
@@ -84,21 +66,63 @@ theorem sel_deleteFirst_other (n k : Bytes) (kvs : Obj) (h : matchesField k n = 
           List.filter (fun kv => matchesField kv.1 n) rest := ih
       rw [ih']
 
-/-- a key no field of the keep struct matches -/
-def unselected (a : Algo) (k : Bytes) : Bool := a.fields.all (fun f => !matchesField k f.name)
+/-! ## `redactWith`: only the last member under each exact field name matters -/
 
-theorem redactObj_setFirst (a : Algo) (k : Bytes) (v : JVal) (kvs : Obj) (h : unselected a k = true) :
-    redactObj a (EventParse.setFirst k v kvs) = redactObj a kvs := by
-  apply redactObj_congr
+/-- `redactWith` on objects that agree on every field name -/
+theorem redactWith_congr (a : Algo) (kvs kvs' : Obj)
+    (h : ∀ f ∈ a.fields, lookupExact kvs f.name = lookupExact kvs' f.name) :
+    redactWith a (.obj kvs) = redactWith a (.obj kvs') := by
+  rw [redactWith_obj, redactWith_obj, exactFields_congr a.fields kvs kvs' h]
+
+theorem filter_setFirst_other (p : Bytes × JVal → Bool) (k : Bytes) (v : JVal) (hp : ∀ x : JVal, p (k, x) = false) :
+    ∀ kvs : Obj, (EventParse.setFirst k v kvs).filter p = kvs.filter p
+  | [] => by simp [EventParse.setFirst, hp]
+  | kv :: rest => by
+    unfold EventParse.setFirst
+    split
+    · rename_i hk
+      have hk' : kv.1 = k := by simpa using hk
+      have h1 : p kv = false := by obtain ⟨k0, x⟩ := kv; simp at hk'; rw [hk']; exact hp x
+      simp [List.filter_cons, hp, h1]
+    · simp only [List.filter_cons, filter_setFirst_other p k v hp rest]
+
+theorem filter_deleteFirst_other (p : Bytes × JVal → Bool) (k : Bytes) (hp : ∀ x : JVal, p (k, x) = false) :
+    ∀ kvs : Obj, (EventParse.deleteFirst k kvs).filter p = kvs.filter p
+  | [] => rfl
+  | kv :: rest => by
+    unfold EventParse.deleteFirst
+    split
+    · rename_i hk
+      have hk' : kv.1 = k := by simpa using hk
+      have h1 : p kv = false := by obtain ⟨k0, x⟩ := kv; simp at hk'; rw [hk']; exact hp x
+      simp [List.filter_cons, h1]
+    · simp only [List.filter_cons, filter_deleteFirst_other p k hp rest]
+
+theorem lookupExact_setFirst_other {n k : Bytes} (v : JVal) (kvs : Obj) (h : k ≠ n) :
+    lookupExact (EventParse.setFirst k v kvs) n = lookupExact kvs n := by
+  rw [lookupExact_eq, lookupExact_eq, lastSome_filter, lastSome_filter,
+    filter_setFirst_other _ k v (fun x => by simp [h]) kvs]
+
+theorem lookupExact_deleteFirst_other {n k : Bytes} (kvs : Obj) (h : k ≠ n) :
+    lookupExact (EventParse.deleteFirst k kvs) n = lookupExact kvs n := by
+  rw [lookupExact_eq, lookupExact_eq, lastSome_filter, lastSome_filter,
+    filter_deleteFirst_other _ k (fun x => by simp [h]) kvs]
+
+/-- a key that is not the exact name of a field of the keep struct -/
+def unlisted (a : Algo) (k : Bytes) : Bool := a.fields.all (fun f => !(f.name == k))
+
+theorem redactWith_setFirst (a : Algo) (k : Bytes) (v : JVal) (kvs : Obj) (h : unlisted a k = true) :
+    redactWith a (.obj (EventParse.setFirst k v kvs)) = redactWith a (.obj kvs) := by
+  apply redactWith_congr
   intro f hf
   have := List.all_eq_true.mp h f hf
-  exact sel_setFirst_other f.name k v kvs (by simpa using this)
+  exact lookupExact_setFirst_other v kvs (fun e => by simp [e] at this)
 
-theorem redactObj_deleteFirst (a : Algo) (k : Bytes) (kvs : Obj) (h : unselected a k = true) :
-    redactObj a (EventParse.deleteFirst k kvs) = redactObj a kvs := by
-  apply redactObj_congr
+theorem redactWith_deleteFirst (a : Algo) (k : Bytes) (kvs : Obj) (h : unlisted a k = true) :
+    redactWith a (.obj (EventParse.deleteFirst k kvs)) = redactWith a (.obj kvs) := by
+  apply redactWith_congr
   intro f hf
   have := List.all_eq_true.mp h f hf
-  exact sel_deleteFirst_other f.name k kvs (by simpa using this)
+  exact lookupExact_deleteFirst_other kvs (fun e => by simp [e] at this)
 
 end V.RedactProofs
